@@ -261,8 +261,50 @@ package constraint
 //@   props C02 C07
 //@   requires 0 <= c && c <= 25
 //@   maypanic
-//@   ensures panics <==> (len(v) == 0 || (exists k :: 0 <= k && k < len(v) && !isDigit(v[k])))
+//@   ensures panics <==> (len(v) == 0 || (exists k :: 0 <= k && k < len(v) && !isDigit(v[k])) || decVal(v, len(v)) > 18446744073709551615)
+//@   ensures normal ==> result == decVal(v, len(v))
 //@   ensures panics ==> typeis(pv, errors.Errorf) && unbox(pv, errors.Errorf).code == errors.ErrInvalidValueOfConstraint && errWF(pv)
+
+// C02: the count rules carry exactly the number their parameter spells
+//@ func NewMinLength(ruleValue)
+//@   props C02 C08
+//@   maypanic
+//@   ensures panics <==> (len(ruleValue) == 0 || (exists k :: 0 <= k && k < len(ruleValue) && !isDigit(ruleValue[k])) || decVal(ruleValue, len(ruleValue)) > 18446744073709551615)
+//@   ensures normal ==> fresh(result) && result.value == decVal(ruleValue, len(ruleValue))
+//@ func NewMaxLength(ruleValue)
+//@   props C02 C08
+//@   maypanic
+//@   ensures panics <==> (len(ruleValue) == 0 || (exists k :: 0 <= k && k < len(ruleValue) && !isDigit(ruleValue[k])) || decVal(ruleValue, len(ruleValue)) > 18446744073709551615)
+//@   ensures normal ==> fresh(result) && result.value == decVal(ruleValue, len(ruleValue))
+//@ func NewMinItems(ruleValue)
+//@   props C04 C08
+//@   maypanic
+//@   ensures panics <==> (len(ruleValue) == 0 || (exists k :: 0 <= k && k < len(ruleValue) && !isDigit(ruleValue[k])) || decVal(ruleValue, len(ruleValue)) > 18446744073709551615)
+//@   ensures normal ==> fresh(result) && result.value == decVal(ruleValue, len(ruleValue))
+//@ func NewMaxItems(ruleValue)
+//@   props C04 C08
+//@   maypanic
+//@   ensures panics <==> (len(ruleValue) == 0 || (exists k :: 0 <= k && k < len(ruleValue) && !isDigit(ruleValue[k])) || decVal(ruleValue, len(ruleValue)) > 18446744073709551615)
+//@   ensures normal ==> fresh(result) && result.value == decVal(ruleValue, len(ruleValue))
+//@ func NewPrecision(ruleValue)
+//@   props C02 C08 C10
+//@   maypanic
+//@   ensures panics <==> (len(ruleValue) == 0 || (exists k :: 0 <= k && k < len(ruleValue) && !isDigit(ruleValue[k])) || decVal(ruleValue, len(ruleValue)) > 18446744073709551615 || decVal(ruleValue, len(ruleValue)) == 0)
+//@   ensures normal ==> fresh(result) && result.value == decVal(ruleValue, len(ruleValue))
+//@ func NewExclusiveMinimum(ruleValue)
+//@   props C02 C08
+//@   maypanic
+//@   ensures panics <==> !(beq(ruleValue, "true") || beq(ruleValue, "false"))
+//@   ensures normal ==> fresh(result) && result.exclusive == beq(ruleValue, "true")
+//@ func NewExclusiveMaximum(ruleValue)
+//@   props C02 C08
+//@   maypanic
+//@   ensures panics <==> !(beq(ruleValue, "true") || beq(ruleValue, "false"))
+//@   ensures normal ==> fresh(result) && result.exclusive == beq(ruleValue, "true")
+//@ func NewType(ruleValue, source)
+//@   props C03 C08
+//@   nopanic
+//@   ensures fresh(result) && result.value == ruleValue && result.source == source
 
 //@ func (MinLength).Validate(value)
 //@   props C02
